@@ -8,6 +8,8 @@ CONSTANTS
   ReadThenUnlink = TRUE
   UnlinkOnDrop = FALSE
   CreateErrIsExist = TRUE
+  DirtyAfterWrite = TRUE
+  MaxFail = 1
 INVARIANTS TypeOK Refines DirIsMap NothingLeftBehind OccupiedIffInserted ReadsReturnStored GoneIsError
 
 CHECK_DEADLOCK FALSE
